@@ -84,8 +84,8 @@ Definition num_check (keep rev : bool) (ps : list Q) (all : list Q) (xs : list Q
   let k := List.length kept in
   N.eqb (no_count o) (N.of_nat n) && N.eqb (no_err o) nerr &&
   close tol mean (no_mean o) &&
-  close (tol * tol * 1000000000) var (no_var o) &&
-  close (tol * tol * 1000000000) var (no_sd o * no_sd o) &&
+  close2 (var_tol2 n mean (qsqdev mean xs)) var (no_var o) &&
+  close2 (var_tol2 n mean (qsqdev mean xs)) var (no_sd o * no_sd o) &&
   Qeq_bool (match qmin_list xs with Some m => m | None => maxfloat end) (no_min o) &&
   Qeq_bool (match qmax_list xs with Some m => m | None => - maxfloat end) (no_max o) &&
   Qeq_bool (nth (k / 2) srt 0%Q) (no_median o) &&
@@ -151,7 +151,7 @@ Definition oa (groups : list (string * list string)) (n : Z) : obs :=
 Definition rq (p : bool * Z * Z) : result Q := let '(ok, m, e) := p in if ok then Ok (fq m e) else Panic.
 Definition f2 (p : Z * Z) : Q := fq (fst p) (snd p).
 Definition on (count err : Z) (mean var sd mn mx med mode : Z * Z) (qs : list (bool * Z * Z)) : obs :=
-  ONm (mkNO (zn count) (zn err) (f2 mean) (f2 var) (f2 sd) (f2 mn) (f2 mx) (f2 med) (f2 mode) (map rq qs) 0).
+  ONm (mkNO (zn count) (zn err) (f2 mean) (f2 var) (f2 sd) (f2 mn) (f2 mx) (f2 med) (f2 mode) (map rq qs) 0 0).
 
 Definition pcols (cs : list string) := PCols (hxs cs).
 Definition prows (rs : list string) := PRows (hxs rs).
